@@ -384,8 +384,13 @@ class PythonToIrCompiler:
             assert var.lvalue
             lhs = self.builder.emit_load(var.value, var.ty)
             rhs = self.gen_expr(statement.value)
-            op = self.binop_map[type(statement.op)]
-            value = self.emit(ir.Binop(lhs, op, rhs, "augassign", var.ty))
+            if isinstance(statement.op, ast.FloorDiv):
+                value = self.gen_floor_div(statement, lhs, rhs, var.ty)
+            else:
+                op = self.binop_map[type(statement.op)]
+                value = self.emit(
+                    ir.Binop(lhs, op, rhs, "augassign", var.ty)
+                )
             self.emit(ir.Store(value, var.value))
         else:  # pragma: no cover
             self.not_impl(statement)
@@ -489,7 +494,6 @@ class PythonToIrCompiler:
         ast.Sub: "-",
         ast.Mult: "*",
         ast.Div: "/",
-        ast.FloorDiv: "/",
     }
 
     def gen_binop(self, expr):
@@ -502,12 +506,63 @@ class PythonToIrCompiler:
         # TODO: assume type of a?
         ty = a.ty
         op_typ = type(expr.op)
-        if op_typ in self.binop_map:
+        if op_typ is ast.FloorDiv:
+            return self.gen_floor_div(expr, a, b, ty)
+        elif op_typ in self.binop_map:
             op = self.binop_map[op_typ]
         else:
             self.not_impl(expr)
         value = self.builder.emit_binop(a, op, b, ty)
         return value
+
+    def gen_floor_div(self, node, a, b, ty):
+        """Compile the floor division a // b.
+
+        The division of the IR-code truncates towards zero, python rounds
+        towards minus infinity. Both agree, unless there is a remainder, and
+        the signs of the operands differ. In that case the truncated quotient
+        is one too high.
+        """
+        if not ty.is_integer:
+            self.error(node, "Floor division is only supported for integers.")
+
+        quotient = self.builder.emit_binop(a, "/", b, ty)
+        product = self.builder.emit_binop(quotient, "*", b, ty)
+        remainder = self.builder.emit_binop(a, "-", product, ty)
+        zero = self.builder.emit_const(0, ty)
+
+        test_block = self.builder.new_block()
+        negative_block = self.builder.new_block()
+        positive_block = self.builder.new_block()
+        adjust_block = self.builder.new_block()
+        keep_block = self.builder.new_block()
+        final_block = self.builder.new_block()
+        self.emit(ir.CJump(remainder, "==", zero, keep_block, test_block))
+
+        # The remainder has the sign of a, so the signs of a and b differ,
+        # when the signs of the remainder and b differ:
+        self.builder.set_block(test_block)
+        self.emit(
+            ir.CJump(remainder, "<", zero, negative_block, positive_block)
+        )
+        self.builder.set_block(negative_block)
+        self.emit(ir.CJump(b, "<", zero, keep_block, adjust_block))
+        self.builder.set_block(positive_block)
+        self.emit(ir.CJump(b, "<", zero, adjust_block, keep_block))
+
+        self.builder.set_block(adjust_block)
+        lowered = self.builder.emit_binop(quotient, "-", 1, ty)
+        self.builder.emit_jump(final_block)
+
+        self.builder.set_block(keep_block)
+        self.builder.emit_jump(final_block)
+
+        self.builder.set_block(final_block)
+        phi = ir.Phi("floordiv", ty)
+        phi.set_incoming(adjust_block, lowered)
+        phi.set_incoming(keep_block, quotient)
+        self.emit(phi)
+        return phi
 
     def gen_call(self, expr):
         """Compile call-expression."""
